@@ -1308,7 +1308,7 @@ Section Gen.
       end.
 
     Definition member_ok (var : xvar) : Prop :=
-      getattr obj (v_name var) = Ok (X var) /\ v_nillable var = false
+      getattr obj (v_name var) = Ok (X var)
       /\ v_wrapper_qname var = None /\ v_tokens_factory var = None /\ seq_shape var (X var).
     Definition group_ok (g : list xvar) : Prop :=
       NoDup (map v_index g) /\ forall var, In var g -> member_ok var.
@@ -1392,7 +1392,7 @@ Section Gen.
       /\ (forall vv, In vv (cell j var) -> fst vv = var /\ okval vv /\ (pair_whole fs vv \/ pair_part fs vv))
       /\ filter oncef (cell j var) = match j with O => if once_b var then emit var (X var) else [] | S _ => [] end.
     Proof.
-      intros [_ [Hn [Hw [Ht Hs]]]]. unfold cell, tailj, has, seq_shape, once_b in *. rewrite Hw.
+      intros [_ [Hw [Ht Hs]]]. unfold cell, tailj, has, seq_shape, once_b in *. rewrite Hw.
       destruct (v_factory var) as [f|] eqn:Ef.
       - destruct Hs as [t [l [Ex Hat]]]. fold X in Ex. rewrite Ex. cbn [orb].
         destruct (nth_error l j) as [x|] eqn:En.
@@ -1410,7 +1410,12 @@ Section Gen.
       - cbn [orb]. fold X in Hs.
         destruct (X var) as [|p|t l|k f0|? ? ? ? ?|? ? ?|?] eqn:Ex; try destruct Hs; destruct j as [|j'].
         all: try (split; [reflexivity|split; [reflexivity|split; [intros vv []|reflexivity]]]).
-        { unfold emit, occ. rewrite Hn. split; [reflexivity|split; [reflexivity|split; [intros vv []|reflexivity]]]. }
+        { unfold emit, occ. destruct (v_nillable var) eqn:Hn.
+          - rewrite sel_one. unfold occ. rewrite Hn. split; [reflexivity|]. split; [reflexivity|]. split.
+            + intros vv [<-|[]]. cbn [fst snd]. split; [reflexivity|]. split; [right; exact Hn|]. left.
+              unfold pair_whole. cbn [fst snd]. symmetry. exact Ex.
+            + cbn [filter]. unfold oncef, once_b. cbn [fst]. rewrite Ef. reflexivity.
+          - split; [reflexivity|split; [reflexivity|split; [intros vv []|reflexivity]]]. }
         all: unfold emit; rewrite sel_one, app_nil_r; split; [reflexivity|]; split; [reflexivity|]; split;
             [intros vv [<-|[]]; cbn [fst snd]; split; [reflexivity|]; split; [left; discriminate|]; left;
              unfold pair_whole; cbn [fst snd]; symmetry; exact Ex
@@ -1511,11 +1516,12 @@ Section Gen.
     Lemma seg_group g out : group_ok g -> seqP g 0 out -> Seg g out.
     Proof.
       intros [Hnd Hg] [Pa [Pb Pc]]. split; [exact Pa|]. split.
-      - intros var Hv. rewrite (Pb var Hv). unfold tailj. destruct (Hg var Hv) as [_ [_ [_ [Ht _]]]].
+      - intros var Hv. rewrite (Pb var Hv). unfold tailj. destruct (Hg var Hv) as [_ [_ [Ht _]]].
         destruct (X var) eqn:Ex; try reflexivity. unfold occ. rewrite Ht. reflexivity.
       - rewrite Pc. apply (nodup_flat_opt v_index idxf); [exact Hnd|].
-        intros var Hv. destruct (once_b var); [|left; reflexivity]. destruct (Hg var Hv) as [_ [Hn _]].
-        unfold emit. rewrite Hn. destruct (X var); try (left; reflexivity); right; eexists; split; reflexivity.
+        intros var Hv. destruct (once_b var); [|left; reflexivity].
+        unfold emit. destruct (X var); try (left; reflexivity); try (right; eexists; split; reflexivity).
+        destruct (v_nillable var); [right; eexists; split; reflexivity|left; reflexivity].
     Qed.
 
     Lemma seg_nil : Seg [] [].
@@ -1542,11 +1548,10 @@ Section Gen.
         assert (Hgok : group_ok g).
         { split; [rewrite map_app in Hnd; apply (nodup_app_l _ _ Hnd)|].
           intros v Hv. rewrite forallb_forall in Hmem. specialize (Hmem v Hv). unfold seq_member, no_wrapper in Hmem.
-          apply andb_true_iff in Hmem as [Hmem Hnl]. apply andb_true_iff in Hmem as [Hw Ht].
-          apply negb_true_iff in Hnl.
+          apply andb_true_iff in Hmem as [Hw Ht].
           destruct (v_wrapper_qname v) eqn:Ewq; [discriminate Hw|]. destruct (v_tokens_factory v) eqn:Etf; [discriminate Ht|].
           pose proof (Hg v (in_or_app _ _ _ (or_introl Hv))) as H1.
-          unfold member_ok. rewrite Ewq, Etf. split; [exact H1|split; [exact Hnl|split; [reflexivity|split; [reflexivity|]]]].
+          unfold member_ok. rewrite Ewq, Etf. split; [exact H1|split; [reflexivity|split; [reflexivity|]]].
           apply Hsh; [apply in_or_app; left; exact Hv|exact Etf]. }
         rewrite (seq_fuel_eq g (fun v Hv => proj1 (proj2 Hgok v Hv))).
         destruct (seq_rolling_spec g Hgok (S (maxlen g)) 0) as [o1 [Hr1 HP1]]; [lia|]. rewrite Hr1. cbn [gbind].
